@@ -160,6 +160,13 @@ def d4_mean(chk, repo):
         if c and c[0] == ".mean" and v.eq(c[1][0], v.spec("self.array")) and "axis" in c[2]:
             bases = strip_stores(v.ctx, c[2]["axis"])
             okm = all((decode_call(v.ctx, b) or ("",))[0] == "np.zeros" for b in bases)
+            for b in bases:
+                cb = decode_call(v.ctx, b)
+                if cb and cb[0] == "np.zeros":
+                    dt = cb[2].get("dtype")
+                    chk.ob("field.Field.mean::axis-numbers-are-integers", dt is not None and is_sym(v.ctx, dt, "int"), "C06.D4",
+                           f"the axis numbers are collected in {v.show(b)}: numpy's default float64 is refused as an axis "
+                           "(TypeError for every mean over several directions)", v.f, r)
     chk.ob("field.Field.mean::several-directions-reduction", okm, "C06.D4",
            "the reduction must be array.mean(axis=tuple(the collected axes))", v.f)
     okg, det = v.guard("len(direction) != len(set(direction))", exc=("ValueError",), before=loops[0] if loops else "exit")
